@@ -1,4 +1,5 @@
 import Mainchain.Lemmas.Exec
+import Mainchain.Lemmas.NodeReach
 /-
 C01 — Deterministic, restart-safe replicated state machine.
 
@@ -217,6 +218,21 @@ theorem c01_nondeterminism_sites :
     Facts.mapRangeExits = [("x/beacon/ante/ante.go", "checkBeaconMaxSlots", "return ErrExceedsMaxStorage"),
       ("x/wrkchain/ante/ante.go", "checkWrkChainMaxSlots", "return ErrExceedsMaxStorage")] := by
   decide
+
+/-- **The machine that is compared with the application is the machine the theorems are about.**  Whatever script
+the compiled model driver (`mdriver`, `Script.step` line by line) is fed — the same lines the harness feeds the real
+application — every state of its node (committed, deliver and check state) is a state of the transition system
+`Reachable g` of the scenario genesis, provided block times do not go backwards and every genesis round trip in the
+script is the identity (which `c15_export_import_identity` proves whenever no registration retains more than
+20,000 records).  So every invariant proved for all reachable states holds in every state the correspondence runs
+visit, and a disagreement between driver and application is a disagreement with the model the proofs quantify over. -/
+theorem c01_driver_stays_inside_the_transition_system (g : GenCfg) (wall : Nat) (lines : List String)
+    (hok : ScriptOK g wall {} lines) (n : Node)
+    (hn : (lines.foldl (fun (it : Script.Interp) l => (Script.step wall it l).1) {}).node = some n) :
+    Reachable g n.committed ∧ Reachable g n.working ∧ Reachable g n.check := by
+  have h0 : InterpReach g {} := by intro n hn; cases hn
+  have := script_reach g wall lines {} h0 hok n hn
+  exact ⟨this.committed, this.working, this.check⟩
 
 end C01
 end Mainchain
